@@ -7,9 +7,11 @@
    classes reachable from c — [cost].  [walk_exact]: a run does not exhaust its fuel IFF the fuel is
    at least the sum of the costs of the classes on the stack.  The hierarchy is acyclic when every
    chain of edges has bounded length ([depth_ok], decidable; implied by a rank that decreases along
-   every edge, [ranked]).  [fuel_suffices]: Jar::get_specialized_methods as modelled does not answer
-   Err when its fuel is at least [fuel_bound] — the largest cost of a class in the two tables — and
-   then every larger fuel gives the same answer ([fuel_irrelevant]). *)
+   every edge, [ranked]).  The model (Model.jar_fuel) gives the work-lists exactly that many steps: the
+   largest cost of a class in the two tables, counted to a depth of the number of rows of the table —
+   which is the true path count by pigeonhole ([depth_rows], [jar_fuel_exact]).  [fuel_suffices]:
+   Jar::get_specialized_methods as modelled does not answer Err on any acyclic hierarchy; [fuel_sharp]: one
+   unit less and some work-list fails; every larger fuel gives the same answer ([fuel_irrelevant]). *)
 From FB Require Import C15.Model C15.Theory C15.Theory2.
 From Coq Require Import Lia PeanoNat.
 Local Open Scope nat_scope.
@@ -25,16 +27,7 @@ Fixpoint depth_ok (d : nat) (G : graph) (c : str) {struct d} : bool :=
                end
   end.
 
-(* the number of paths that start at c (cut off below depth d; exact when [depth_ok d G c]) *)
-Fixpoint cost (d : nat) (G : graph) (c : str) {struct d} : nat :=
-  match map_get str_eqb c G with
-  | None => 1
-  | Some ys => match d with
-               | O => 1
-               | S d' => S (list_sum (map (cost d' G) ys))
-               end
-  end.
-
+(* [cost d G c] (Model.v): the number of paths that start at c, cut off below depth d; exact when [depth_ok d G c] *)
 Definition total (d : nat) (G : graph) (stack : list str) : nat := list_sum (map (cost d G) stack).
 
 Lemma depth_ok_eq d G c :
@@ -109,7 +102,6 @@ Qed.
 
 (* ---------- a whole table ---------- *)
 Definition hier_depth_ok (d : nat) (G : graph) : bool := forallb (fun e => depth_ok d G (fst e)) G.
-Definition graph_bound (d : nat) (G : graph) : nat := fold_right (fun e m => Nat.max (cost d G (fst e)) m) 1 G.
 
 Lemma hier_depth_all d G : hier_depth_ok d G = true -> forall c, depth_ok d G c = true.
 Proof.
@@ -143,6 +135,111 @@ Proof.
   intros Hd Hb s. apply (walk_exact G d fuel [s] []).
   - intros c _. apply hier_depth_all. exact Hd.
   - rewrite total_cons, total_nil. pose proof (cost_le_bound d G s). lia.
+Qed.
+
+(* ---------- the depth bound of the model's fuel: the number of rows of the table ---------- *)
+(* a chain: every element has a row, and each next element is listed in the row of the previous one *)
+Fixpoint chain (G : graph) (l : list str) : Prop :=
+  match l with
+  | [] => True
+  | c :: l' => exists ys, map_get str_eqb c G = Some ys /\ match l' with [] => True | y :: _ => In y ys end /\ chain G l'
+  end.
+
+Lemma forallb_false {A} (f : A -> bool) l : forallb f l = false -> exists x, In x l /\ f x = false.
+Proof.
+  induction l as [|x l IH]; cbn [forallb]; [discriminate|]. destruct (f x) eqn:E; cbn [andb].
+  - intros H. destruct (IH H) as (y & Hy & Ey). exists y. split; [right; exact Hy|exact Ey].
+  - intros _. exists x. split; [left; reflexivity|exact E].
+Qed.
+
+(* a class that is not depth_ok k starts a chain of k+1 rows *)
+Lemma long_chain G : forall k c, depth_ok k G c = false -> exists l, length l = k /\ chain G (c :: l).
+Proof.
+  induction k as [|k IH]; intros c H; rewrite depth_ok_eq in H; destruct (map_get str_eqb c G) as [ys|] eqn:E; try discriminate.
+  - exists []. split; [reflexivity|]. cbn [chain]. exists ys. auto.
+  - apply forallb_false in H. destruct H as (y & Hy & Ey). destruct (IH y Ey) as (l & Hl & Hc).
+    exists (y :: l). split; [cbn [length]; lia|]. change (chain G (c :: y :: l)) with
+      (exists ys0, map_get str_eqb c G = Some ys0 /\ In y ys0 /\ chain G (y :: l)).
+    exists ys. auto.
+Qed.
+
+(* the least depth at which c is depth_ok (below d) *)
+Fixpoint least (G : graph) (d : nat) (c : str) : nat :=
+  match d with
+  | O => O
+  | S d' => if depth_ok d' G c then least G d' c else S d'
+  end.
+
+Lemma least_ok G : forall d c, depth_ok d G c = true -> depth_ok (least G d c) G c = true.
+Proof.
+  induction d as [|d IH]; intros c H; cbn [least]; [exact H|].
+  destruct (depth_ok d G c) eqn:E; [apply IH; exact E|exact H].
+Qed.
+
+Lemma least_le G : forall d c m, depth_ok m G c = true -> least G d c <= m.
+Proof.
+  induction d as [|d IH]; intros c m H; cbn [least]; [lia|].
+  destruct (depth_ok d G c) eqn:E; [apply IH; exact H|].
+  destruct (Nat.le_gt_cases m d) as [Hle|Hgt]; [|lia].
+  destruct (depth_le G m d c Hle H) as [H' _]. congruence.
+Qed.
+
+Lemma least_edge G d c ys y : depth_ok d G c = true -> map_get str_eqb c G = Some ys -> In y ys ->
+  least G d y < least G d c.
+Proof.
+  intros H E Hy. pose proof (least_ok G d c H) as Hm. rewrite depth_ok_eq, E in Hm.
+  destruct (least G d c) as [|m] eqn:El; [discriminate|]. rewrite forallb_forall in Hm.
+  pose proof (least_le G d y m (Hm y Hy)). lia.
+Qed.
+
+Lemma chain_decreasing G d : (forall c, depth_ok d G c = true) ->
+  forall l c, chain G (c :: l) -> forall x, In x l -> least G d x < least G d c.
+Proof.
+  intros Hd. induction l as [|y l IH]; intros c Hc x Hx; [destruct Hx|].
+  change (exists ys0, map_get str_eqb c G = Some ys0 /\ In y ys0 /\ chain G (y :: l)) in Hc.
+  destruct Hc as (ys & E & Hy & Hc'). pose proof (least_edge G d c ys y (Hd c) E Hy) as H1.
+  destruct Hx as [<-|Hx]; [exact H1|]. pose proof (IH y Hc' x Hx). lia.
+Qed.
+
+Lemma chain_NoDup G d : (forall c, depth_ok d G c = true) -> forall l, chain G l -> NoDup l.
+Proof.
+  intros Hd. induction l as [|c l IH]; intros Hc; [constructor|]. constructor.
+  - intros Hi. pose proof (chain_decreasing G d Hd l c Hc c Hi). lia.
+  - apply IH. destruct Hc as (ys & _ & _ & Hc'). exact Hc'.
+Qed.
+
+Lemma chain_rows G : forall l, chain G l -> incl l (map fst G).
+Proof.
+  induction l as [|c l IH]; intros Hc x Hx; [destruct Hx|]. destruct Hc as (ys & E & _ & Hc').
+  destruct Hx as [<-|Hx]; [|exact (IH Hc' x Hx)].
+  apply (map_get_Some_In str_eqb str_eqb_dec) in E. apply (in_map fst) in E. exact E.
+Qed.
+
+(* pigeonhole: on a table all of whose chains are bounded, no chain is longer than the number of rows *)
+Theorem depth_rows G d : (forall c, depth_ok d G c = true) -> forall c, depth_ok (length G) G c = true.
+Proof.
+  intros Hd c. destruct (depth_ok (length G) G c) eqn:E; [reflexivity|exfalso].
+  destruct (long_chain G _ _ E) as (l & Hl & Hc).
+  pose proof (NoDup_incl_length (chain_NoDup G d Hd _ Hc) (chain_rows G _ Hc)) as Hlen.
+  rewrite map_length in Hlen. cbn [length] in Hlen. lia.
+Qed.
+
+Lemma graph_bound_ext d D G : (forall c, cost d G c = cost D G c) -> graph_bound d G = graph_bound D G.
+Proof.
+  intros H. unfold graph_bound. generalize G at 2 4. induction G0 as [|e G0 IH]; cbn [fold_right]; [reflexivity|].
+  rewrite IH, H. reflexivity.
+Qed.
+
+(* the model's fuel for a table is the largest number of paths from a class, whatever bound d shows acyclicity *)
+Theorem walk_fuel_exact G d : hier_depth_ok d G = true ->
+  hier_depth_ok (length G) G = true /\ walk_fuel G = graph_bound d G.
+Proof.
+  intros H. pose proof (hier_depth_all d G H) as Hd. pose proof (depth_rows G d Hd) as HL. split.
+  - unfold hier_depth_ok. apply forallb_forall. intros e _. apply HL.
+  - unfold walk_fuel. apply graph_bound_ext. intros c.
+    destruct (Nat.le_gt_cases d (length G)) as [Hle|Hgt].
+    + apply (depth_le G d (length G) c Hle (Hd c)).
+    + symmetry. apply (depth_le G (length G) d c); [lia|apply HL].
 Qed.
 
 (* ---------- Jar::get_specialized_methods with an explicit fuel ---------- *)
@@ -215,9 +312,39 @@ Proof.
   apply loop_never_err; apply (walks_ok_bound d); auto; lia.
 Qed.
 
-Theorem fuel_suffices J d : hier_ok d J = true -> fuel_bound d J <= jar_fuel J -> get_specialized J <> Err.
+(* the model's fuel is exactly the bound, whatever depth d shows the hierarchy acyclic *)
+Theorem jar_fuel_exact J d : hier_ok d J = true -> jar_fuel J = fuel_bound d J.
 Proof.
-  intros H Hb. rewrite get_specialized_is_f. destruct (fuel_suffices_f J d (jar_fuel J) H Hb) as [r ->]. discriminate.
+  unfold hier_ok, jar_fuel, fuel_bound. rewrite andb_true_iff. intros [HP HC].
+  destruct (walk_fuel_exact _ d HP) as [_ ->]. destruct (walk_fuel_exact _ d HC) as [_ ->]. reflexivity.
+Qed.
+
+Theorem fuel_suffices J d : hier_ok d J = true -> get_specialized J <> Err.
+Proof.
+  intros H. rewrite get_specialized_is_f.
+  destruct (fuel_suffices_f J d (jar_fuel J) H) as [r ->]; [rewrite (jar_fuel_exact J d H); apply Nat.le_refl|discriminate].
+Qed.
+
+(* and it is not generous: with less fuel than the model's, some work-list of the jar started at one of its classes fails *)
+Theorem fuel_sharp J d f : hier_ok d J = true -> f < jar_fuel J ->
+  exists c, walk f (ix_parents J) [c] [] = Err \/ walk f (ix_children J) [c] [] = Err.
+Proof.
+  intros H Hf. rewrite (jar_fuel_exact J d H) in Hf. unfold hier_ok in H. apply andb_true_iff in H. destruct H as [HP HC].
+  unfold fuel_bound in Hf.
+  assert (Hex : forall G, hier_depth_ok d G = true -> f < graph_bound d G -> exists c, walk f G [c] [] = Err).
+  { intros G HG Hlt. assert (Hc : exists c, f < cost d G c).
+    { unfold graph_bound in Hlt. revert Hlt. generalize G at 2. induction G0 as [|e G0 IH]; cbn [fold_right]; intros Hlt.
+      - exists []. pose proof (cost_pos d G []). lia.
+      - destruct (Nat.max_spec (cost d G (fst e)) (fold_right (fun e0 m => Nat.max (cost d G (fst e0)) m) 1 G0)) as [[_ Hm]|[_ Hm]]; rewrite Hm in Hlt.
+        + apply IH. exact Hlt.
+        + exists (fst e). exact Hlt. }
+    destruct Hc as (c & Hc). exists c. destruct (walk f G [c] []) as [r|] eqn:E; [|reflexivity]. exfalso.
+    assert (Hw : exists r, walk f G [c] [] = Ok r) by (exists r; exact E).
+    apply (walk_exact G d f [c] []) in Hw; [|intros c' _; apply hier_depth_all; exact HG].
+    rewrite total_cons, total_nil in Hw. lia. }
+  destruct (Nat.max_spec (graph_bound d (ix_parents J)) (graph_bound d (ix_children J))) as [[_ Hm]|[_ Hm]]; rewrite Hm in Hf.
+  - destruct (Hex _ HC Hf) as (c & Hc). exists c. right. exact Hc.
+  - destruct (Hex _ HP Hf) as (c & Hc). exists c. left. exact Hc.
 Qed.
 
 (* ---------- more fuel never changes the answer of the whole computation ---------- *)
@@ -330,9 +457,8 @@ Proof.
     intros p c Hcp. destruct (Hp c p Hcp). lia.
 Qed.
 
-Theorem fuel_suffices_ranked J rk D : ranked J rk D = true -> fuel_bound (S D) J <= jar_fuel J ->
-  get_specialized J <> Err.
-Proof. intros H. apply fuel_suffices. apply (ranked_hier_ok J rk D H). Qed.
+Theorem fuel_suffices_ranked J rk D : ranked J rk D = true -> get_specialized J <> Err.
+Proof. intros H. apply (fuel_suffices J (S D)). apply (ranked_hier_ok J rk D H). Qed.
 
 (* ---------- a cheap sufficient condition: bounded out-degree x depth ---------- *)
 (* 1 + b + b^2 + ... + b^d *)
@@ -369,12 +495,12 @@ Proof.
 Qed.
 
 (* at most b super types per class and at most b direct subtypes per class, chains of at most d
-   edges: 1 + b + ... + b^d units of fuel suffice *)
-Theorem fuel_suffices_degree J b d :
+   edges: no work-list of the jar takes more than 1 + b + ... + b^d steps *)
+Theorem fuel_degree_bound J b d :
   hier_ok d J = true -> degree_le b (ix_parents J) = true -> degree_le b (ix_children J) = true ->
-  geo b d <= jar_fuel J -> get_specialized J <> Err.
+  jar_fuel J <= geo b d.
 Proof.
-  intros H HP HC Hg. apply (fuel_suffices J d H). unfold fuel_bound.
+  intros H HP HC. rewrite (jar_fuel_exact J d H). unfold fuel_bound.
   pose proof (graph_bound_le_geo b d _ HP). pose proof (graph_bound_le_geo b d _ HC). lia.
 Qed.
 
@@ -396,8 +522,8 @@ Definition dia_rank (c : str) : nat :=
   if str_eqb c n_D then 2 else if str_eqb c n_B then 1 else if str_eqb c n_C then 1 else 0.
 
 (* k diamonds on top of each other: t_i extends l_i implements r_i; l_i, r_i extend t_(i+1).
-   2^(k+2) - 3 paths start at t_0 while the table has 4k edges: for k = 9 the model's quadratic fuel
-   (4k+2)^2 = 1444 is below the 2045 steps the (terminating) Rust loop takes. *)
+   2^(k+2) - 3 paths start at t_0 while the table has 4k edges: for k = 9 a quadratic fuel
+   (4k+2)^2 = 1444 is below the 2045 steps the (terminating) Rust loop takes; the model's fuel is the path count. *)
 Definition nm (c : N) (i : nat) : str := [c; (48 + N.of_nat i)%N].
 Definition d_of (n : str) : str := [40; 76]%N ++ n ++ [59; 41; 86]%N.
 Definition tower (k : nat) : jar :=
@@ -415,16 +541,16 @@ Definition tower (k : nat) : jar :=
 Definition fuel_examples : Prop :=
   (* the diamond is inside the hypotheses, by rank and by depth *)
   ranked dia_jar dia_rank 3 = true /\ hier_ok 2 dia_jar = true
-  /\ fuel_bound 2 dia_jar = 5 /\ jar_fuel dia_jar = 36
+  /\ fuel_bound 2 dia_jar = 5 /\ jar_fuel dia_jar = 5
   (* paths, not classes: 5 steps, A twice *)
   /\ walk 5 (ix_parents dia_jar) [n_D] [] = Ok [n_B; n_C; n_A; n_A]
   /\ walk 4 (ix_parents dia_jar) [n_D] [] = Err
   /\ get_specialized dia_jar = Ok ([((n_D, (n_m, d_A)), (n_D, (n_m, d_D)))], [((n_D, (n_m, d_D)), (n_D, (n_m, d_A)))])
   /\ get_specialized_f 4 dia_jar = Err
-  (* the hypothesis on the fuel is needed: an acyclic tower of nine diamonds *)
-  /\ hier_ok 18 (tower 9) = true /\ fuel_bound 18 (tower 9) = 2045 /\ jar_fuel (tower 9) = 1444
-  /\ get_specialized (tower 9) = Err
-  /\ get_specialized_f 2045 (tower 9)
+  (* no polynomial in the size of the tables would do: an acyclic tower of nine diamonds (28 classes, 36 edges) *)
+  /\ hier_ok 18 (tower 9) = true /\ fuel_bound 18 (tower 9) = 2045 /\ jar_fuel (tower 9) = 2045
+  /\ get_specialized_f 1444 (tower 9) = Err
+  /\ get_specialized (tower 9)
      = Ok ([((nm 116%N 0, (n_m, d_of (nm 116%N 9))), (nm 116%N 0, (n_m, d_of (nm 116%N 0))))],
            [((nm 116%N 0, (n_m, d_of (nm 116%N 0))), (nm 116%N 0, (n_m, d_of (nm 116%N 9))))]).
 
